@@ -16,6 +16,7 @@ from mc.recorders import make_model, fit_log, score_log
 from mc import sched
 
 PROPERTY = "C02"
+SIZE_MODULES = ['mokapot.brew', 'mokapot.dataset', 'mokapot.model']  # see mc.runner._sized_passes
 LEVEL = "model_checking"
 RULE = (
     "E1: case = (spectrum-multiplicity vector repeated to the dataset size, scan offset, configuration = deviations "
